@@ -196,6 +196,8 @@ type fnFacts struct {
 	hasCtx      bool
 	ctx         St
 	ctxSpecific bool // some call site had a field-specific state (the join may still be top)
+	// a closure's captured field variables for which some call site's state was about another field than the one captured
+	ctxForeign map[*ssa.FreeVar]bool
 }
 
 // ctxField stands for "the field under emission at the call sites" in functions that have no field parameter.
@@ -302,6 +304,20 @@ func canonField(v ssa.Value) ssa.Value {
 	return v
 }
 
+// subjectField: the variable a field value stands for in the state analysis: canonField, and for a field captured by a closure the
+// captured variable itself (every use loads it anew; capturedField tells what the enclosing function keeps in it).
+func subjectField(v ssa.Value) ssa.Value {
+	if v == nil {
+		return nil
+	}
+	if ld, ok := stripIdentity(v).(*ssa.UnOp); ok && ld.Op == token.MUL && isFieldPtr(ld.Type()) {
+		if fv, ok := ld.X.(*ssa.FreeVar); ok {
+			return fv
+		}
+	}
+	return canonField(v)
+}
+
 // isCarriedField: a field value the function was handed (a parameter, or a member of a record parameter).
 func isCarriedField(f ssa.Value) bool {
 	if _, ok := f.(*ssa.Parameter); ok {
@@ -338,7 +354,7 @@ func uncheckedKind(b *ssa.BasicBlock, f ssa.Value) (int, bool) {
 			continue
 		}
 		fa, ok := ld.X.(*ssa.FieldAddr)
-		if !ok || !isFieldPtr(fa.X.Type()) || canonField(fa.X) != f {
+		if !ok || !isFieldPtr(fa.X.Type()) || (canonField(fa.X) != f && subjectField(fa.X) != f) {
 			continue
 		}
 		if _, fname, _, _ := fieldOf(fa); fname != "Attr" {
@@ -400,6 +416,19 @@ func fieldTest(cond ssa.Value) (f ssa.Value, refine func(St, bool) St) {
 				}
 			}
 			return nil, nil
+		}
+	}
+	// ok of a lookup in a table keyed by the dynamic type of f.Attr: the kind has a row / has none
+	if kf, rows, exact := kindLookupTest(cond); kf != nil {
+		return kf, func(s St, edge bool) St {
+			if edge != neg {
+				if exact {
+					s.K &= rows
+				}
+			} else {
+				s.K &^= rows
+			}
+			return s
 		}
 	}
 	// f.IsRepeat
@@ -554,6 +583,15 @@ func newMatrix(w *World) *matrix {
 			if c, ok := ins.(ssa.CallInstruction); ok {
 				if g := calleeOf(c); g != nil && g != fn {
 					m.callers[g] = append(m.callers[g], c)
+				} else if g == nil {
+					// a call of a row of a kind table: a call site of every function behind a row (arguments and parameters
+					// correspond one to one unless the row is a method value, which brings its receiver)
+					ts, _ := dispatchTargets(c)
+					for _, t := range ts {
+						if t.off == 0 && t.fn != fn {
+							m.callers[t.fn] = append(m.callers[t.fn], c)
+						}
+					}
 				}
 			}
 		})
@@ -569,9 +607,15 @@ func newMatrix(w *World) *matrix {
 		}
 		for _, b := range fn.Blocks {
 			if c := branchCond(b); c != nil {
-				if f, _ := fieldTest(c); f != nil && !seen[f] {
-					seen[f] = true
-					ff.fields = append(ff.fields, f)
+				if f, _ := fieldTest(c); f != nil {
+					// the tested value stands for its variable: a parameter kept in a cell, a captured variable, a member of a record
+					if cf := subjectField(f); cf != nil {
+						f = cf
+					}
+					if !seen[f] {
+						seen[f] = true
+						ff.fields = append(ff.fields, f)
+					}
 				}
 			}
 			for _, ins := range b.Instrs {
@@ -647,6 +691,13 @@ func (m *matrix) solve() {
 			if c, ok := ins.(ssa.CallInstruction); ok {
 				if g := calleeOf(c); g != nil && m.facts[g] != nil && g != fn {
 					hasCaller[g] = true
+				} else if g == nil {
+					ts, _ := dispatchTargets(c)
+					for _, t := range ts {
+						if m.facts[t.fn] != nil && t.fn != fn {
+							hasCaller[t.fn] = true
+						}
+					}
 				}
 			}
 		})
@@ -684,8 +735,12 @@ func (m *matrix) solve() {
 					return
 				}
 				g := calleeOf(c)
+				if g == nil {
+					m.propagateDispatch(ff, b, c, &changed)
+					return
+				}
 				gf := m.facts[g]
-				if g == nil || gf == nil {
+				if gf == nil {
 					return
 				}
 				if gf.hasCtx && g != fn {
@@ -694,6 +749,16 @@ func (m *matrix) solve() {
 						s = stTop
 					}
 					if !s.empty() {
+						// is the field this state is about the one a closure callee has captured?
+						for _, fv := range g.FreeVars {
+							if isFieldPtrPtr(fv.Type()) && (sf == nil || capturedField(fn, g, fv) != sf) && !gf.ctxForeign[fv] {
+								if gf.ctxForeign == nil {
+									gf.ctxForeign = map[*ssa.FreeVar]bool{}
+								}
+								gf.ctxForeign[fv] = true
+								changed = true
+							}
+						}
 						if !s.isTop() {
 							gf.ctxSpecific = true
 						}
@@ -709,7 +774,7 @@ func (m *matrix) solve() {
 					}
 					arg := c.Common().Args[i]
 					s := stTop
-					if sts, ok := ff.st[arg]; ok {
+					if sts := ff.statesOf(arg); sts != nil {
 						s = sts[b.Index]
 						if s.empty() {
 							continue // unreachable call site
@@ -733,6 +798,58 @@ func (m *matrix) solve() {
 			if ff.entry[f].empty() {
 				ff.entry[f] = stTop
 				ff.st[f] = m.flow(ff, f)
+			}
+		}
+	}
+}
+
+// propagateDispatch: c (in block b of ff.fn) calls a row of a kind table: each function behind a row is entered with the field
+// whose kind selected the row committed to the kinds the function is registered for.
+func (m *matrix) propagateDispatch(ff *fnFacts, b *ssa.BasicBlock, c ssa.CallInstruction, changed *bool) {
+	fn := ff.fn
+	ts, kf := dispatchTargets(c)
+	for _, t := range ts {
+		gf := m.facts[t.fn]
+		if gf == nil || t.fn == fn {
+			continue
+		}
+		if gf.hasCtx {
+			s, sf := m.stateAt(fn, b)
+			if sf == nil {
+				s = stTop
+			}
+			if sf == nil || sf == ctxField || subjectField(kf) == sf {
+				s.K &= t.kinds
+			}
+			if !s.empty() {
+				if !s.isTop() {
+					gf.ctxSpecific = true
+				}
+				if nw := gf.ctx.join(s); nw != gf.ctx {
+					gf.ctx = nw
+					*changed = true
+				}
+			}
+		}
+		for i, p := range t.fn.Params {
+			ai := i - t.off
+			if !isFieldPtr(p.Type()) || ai < 0 || ai >= len(c.Common().Args) {
+				continue
+			}
+			arg := c.Common().Args[ai]
+			s := stTop
+			if sts := ff.statesOf(arg); sts != nil {
+				s = sts[b.Index]
+			}
+			if subjectField(arg) == subjectField(kf) {
+				s.K &= t.kinds
+			}
+			if s.empty() {
+				continue
+			}
+			if nw := gf.entry[p].join(s); nw != gf.entry[p] {
+				gf.entry[p] = nw
+				*changed = true
 			}
 		}
 	}
@@ -778,7 +895,7 @@ func (m *matrix) flow(ff *fnFacts, f ssa.Value) []St {
 		}
 		for si, s := range b.Succs {
 			out := cur
-			if tf == f && refine != nil {
+			if refine != nil && tf != nil && (tf == f || subjectField(tf) == f) {
 				out = refine(cur, si == 0)
 			}
 			if out.empty() {
@@ -800,6 +917,66 @@ func (m *matrix) flow(ff *fnFacts, f ssa.Value) []St {
 	return in
 }
 
+// statesOf: the block states of the field value v stands for (a load of the cell a captured parameter lives in is the parameter).
+func (ff *fnFacts) statesOf(v ssa.Value) []St {
+	if sts, ok := ff.st[v]; ok {
+		return sts
+	}
+	if cf := subjectField(v); cf != nil && cf != v {
+		if sts, ok := ff.st[cf]; ok {
+			return sts
+		}
+	}
+	return nil
+}
+
+func isFieldPtrPtr(t types.Type) bool {
+	p, ok := t.(*types.Pointer)
+	return ok && isFieldPtr(p.Elem())
+}
+
+// capturedField: the field value of fn that closure g (made in fn) finds in its free variable fv - nil when g is not made in fn or
+// the captured variable is assigned more than once.
+func capturedField(fn, g *ssa.Function, fv *ssa.FreeVar) ssa.Value {
+	if g.Parent() != fn {
+		return nil
+	}
+	idx := -1
+	for j, v := range g.FreeVars {
+		if v == fv {
+			idx = j
+		}
+	}
+	var out ssa.Value
+	n := 0
+	forEachInstr(fn, func(_ *ssa.BasicBlock, ins ssa.Instruction) {
+		mc, ok := ins.(*ssa.MakeClosure)
+		if !ok || mc.Fn != ssa.Value(g) || idx < 0 || idx >= len(mc.Bindings) {
+			return
+		}
+		n++
+		cell, ok := mc.Bindings[idx].(*ssa.Alloc)
+		if !ok || cell.Referrers() == nil {
+			return
+		}
+		var only ssa.Value
+		stores := 0
+		for _, ref := range *cell.Referrers() {
+			if st, ok := ref.(*ssa.Store); ok && st.Addr == ssa.Value(cell) {
+				stores++
+				only = st.Val
+			}
+		}
+		if stores == 1 {
+			out = subjectField(only)
+		}
+	})
+	if n != 1 {
+		return nil
+	}
+	return out
+}
+
 // stateAt: the most specific field state that applies at block b of fn (parameter preferred), and the field it belongs to.
 func (m *matrix) stateAt(fn *ssa.Function, b *ssa.BasicBlock) (St, ssa.Value) {
 	ff := m.facts[fn]
@@ -819,6 +996,10 @@ func (m *matrix) stateAt(fn *ssa.Function, b *ssa.BasicBlock) (St, ssa.Value) {
 			if !ins.Block().Dominates(b) {
 				continue
 			}
+		}
+		// a closure's captured field is the field its call sites' states are about: what the closure tests refines that state
+		if fv, ok := f.(*ssa.FreeVar); ok && ff.hasCtx && !ff.ctx.empty() && !ff.ctxForeign[fv] {
+			s = meetSt(s, ff.ctx)
 		}
 		if bf == nil || popcount(s) < popcount(best) {
 			best, bf = s, f
@@ -1265,9 +1446,11 @@ type depCtx struct {
 }
 
 type paramKey struct {
-	p *ssa.Parameter
-	u unit
-	s bool
+	p  *ssa.Parameter
+	fv *ssa.FreeVar
+	bp bool
+	u  unit
+	s  bool
 }
 
 func (m *matrix) ctx(fn *ssa.Function, u *unit) *depCtx {
@@ -1308,7 +1491,8 @@ func (c *depCtx) compute(v ssa.Value) src {
 		}
 		return c.m.paramDeps(x, c.u)
 	case *ssa.FreeVar:
-		return 0
+		// a captured variable carries what the enclosing function has stored into it (the variable is shared: one binding)
+		return c.freeVarDeps(x)
 	case *ssa.Alloc:
 		// object taint: everything stored into the object (in feasible blocks), builder writes included
 		var d src
@@ -1462,6 +1646,55 @@ func (c *depCtx) compute(v ssa.Value) src {
 		return c.callDeps(x)
 	}
 	return 0
+}
+
+// freeVarDeps: what the enclosing function put into the variable the closure captured, judged in the enclosing function for the
+// same cell of the matrix.
+func (c *depCtx) freeVarDeps(fv *ssa.FreeVar) src {
+	g := fv.Parent()
+	if g == nil || g.Parent() == nil || isFieldPtrPtr(fv.Type()) {
+		return 0
+	}
+	switch modelTypeName(fv.Type()) {
+	case "Packet", "BinaryModel", "Field", "Configuration":
+		return 0 // containers: what is read out of them is a source of its own
+	}
+	if n := namedOf(fv.Type()); n != nil && strings.HasSuffix(n.Obj().Name(), "Generator") {
+		return 0
+	}
+	if isBuilderPtr(fv.Type()) {
+		return 0 // the text written so far is not an input of the text written next
+	}
+	parent := g.Parent()
+	idx := -1
+	for j, v := range g.FreeVars {
+		if v == fv {
+			idx = j
+		}
+	}
+	key := paramKey{fv: fv, bp: c.bindParams}
+	if c.u != nil {
+		key.u, key.s = *c.u, true
+	}
+	if d, ok := c.m.pdeps[key]; ok {
+		return d
+	}
+	if c.m.pbusy[key] {
+		return 0
+	}
+	c.m.pbusy[key] = true
+	defer delete(c.m.pbusy, key)
+	pc := c.m.ctx(parent, c.u)
+	pc.bindParams = c.bindParams
+	var d src
+	forEachInstr(parent, func(_ *ssa.BasicBlock, ins ssa.Instruction) {
+		if mc, ok := ins.(*ssa.MakeClosure); ok && mc.Fn == ssa.Value(g) && idx >= 0 && idx < len(mc.Bindings) {
+			d |= pc.deps(mc.Bindings[idx])
+		}
+	})
+	d &^= sNAME
+	c.m.pdeps[key] = d
+	return d
 }
 
 func (c *depCtx) callDeps(call *ssa.Call) src {
@@ -2322,10 +2555,18 @@ func (m *matrix) resolveAnchors(r *Report) map[string]map[string][]*ssa.Function
 			out[ga.Lang][role] = sortedFuncs(seen)
 			out[ga.Lang][role+"roots"] = roots[role]
 		}
-		for _, f := range roots["enc"] {
-			m.anchors[f] = true
+		// a call of another emitter is opaque because the callee's text is judged at the callee's own emission sites. A function that
+		// has the role's name but no emission site (it hands back a record, a flag, a list of packets) has nothing that could be
+		// judged there: it is a helper of its callers, and what it returns is followed like any helper's result.
+		var emitting []*ssa.Function
+		for _, role := range []string{"enc", "dec"} {
+			for _, f := range roots[role] {
+				if len(m.sitesOf(f)) > 0 {
+					emitting = append(emitting, f)
+				}
+			}
 		}
-		for _, f := range roots["dec"] {
+		for _, f := range emitting {
 			m.anchors[f] = true
 		}
 		out[ga.Lang]["own"] = own
@@ -2417,23 +2658,35 @@ func (c *depCtx) recordFieldDeps(v ssa.Value, idx int, depth int) (d0 src, ok0 b
 	if os.Getenv("FINLINT_DEBUG_RECORD") != "" {
 		defer func() { fmt.Printf("DBG record %s%s idx=%d -> %s %v\n", strings.Repeat("  ", depth), v, idx, d0, ok0) }()
 	}
+	resIdx := 0
+	if ex, ok := v.(*ssa.Extract); ok {
+		// one result of a helper that returns the record together with other results (a flag, an error)
+		call, ok := ex.Tuple.(*ssa.Call)
+		if !ok {
+			return 0, false
+		}
+		v, resIdx = call, ex.Index
+	}
 	switch x := v.(type) {
+	case *ssa.Const:
+		return 0, true // the zero record: every member is its type's zero value
 	case *ssa.Call:
-		h := x.Call.StaticCallee()
-		if h == nil || h.Blocks == nil || !c.m.w.isSubjectFunc(h) {
+		h := calleeOf(x) // a method, a function, a closure of the function at hand
+		if h == nil || h.Blocks == nil || !c.m.w.isSubjectFunc(h) || x.Call.IsInvoke() {
 			return 0, false
 		}
 		cc := c.m.ctx(h, c.u)
 		cc.bindParams = c.bindParams
+		cc.noOpaque = c.noOpaque
 		var d src
 		n := 0
 		var rets []*ssa.BasicBlock
 		for _, b := range h.Blocks {
 			ret, ok := b.Instrs[len(b.Instrs)-1].(*ssa.Return)
-			if !ok || len(ret.Results) != 1 || !c.m.feasible(h, b, c.u) {
+			if !ok || resIdx >= len(ret.Results) || !c.m.feasible(h, b, c.u) {
 				continue
 			}
-			r, ok := cc.recordFieldDeps(ret.Results[0], idx, depth+1)
+			r, ok := cc.recordFieldDeps(ret.Results[resIdx], idx, depth+1)
 			if !ok {
 				return 0, false
 			}
